@@ -426,6 +426,7 @@ func checkC18(p *Prog, r *Report) {
 	ruleRawStrictness(p, r)
 	ruleAppendBoundary(p, r)
 	ruleMergeOrder(p, r)
+	ruleEveryLineKept(p, r)
 	ruleLoadOrder(p, r)
 	r.Trusted = []string{"go/ssa, call graph"}
 	r.NotDec = "positions of prepend/append in merged lists beyond the boundary guard; relative order inside each part"
@@ -1031,4 +1032,95 @@ func isCmdList(t types.Type) bool {
 		return true
 	}
 	return strings.HasSuffix(typeShort(sl.Elem()), ".change")
+}
+
+// ruleEveryLineKept: R18.7.  In the ACL merge functions every line of the
+// merged-in part is added to one of the result lists on every path through
+// the loop body: no `continue`, no de-duplication, no filter.
+func ruleEveryLineKept(p *Prog, r *Report) {
+	r.rule("R18.7", "Every line of a merged-in ACL part is kept: in cisco.mergeASAACLs and cisco.mergeIOSACLs the loop over the lines of the merged-in part (ab.bCmds / the sub-commands of its first command) reaches, on every path through its body, an append of the current line to one of the result lists. (ACL lines are never merged with or dropped in favour of an existing line: lines that look alike after object-group names were replaced by placeholders can differ in their groups.)")
+	for _, spec := range [][2]string{{"cisco.mergeASAACLs", "bCmds"}, {"cisco.mergeIOSACLs", "cisco.cmd.sub"}} {
+		name, src := spec[0], spec[1]
+		fn := p.Fn(name)
+		if fn == nil {
+			r.fail("R18.7", "anchor|"+name, "", "not found", "")
+			continue
+		}
+		found := 0
+		for _, blk := range fn.Blocks {
+			for _, in := range blk.Instrs {
+				elem, ok := in.(*ssa.UnOp)
+				if !ok {
+					continue
+				}
+				ia, ok := elem.X.(*ssa.IndexAddr)
+				if !ok || !strings.HasSuffix(typeShort(elem.Type()), "cisco.cmd") || !strings.Contains(descValue(ia.X, 0), src) {
+					continue
+				}
+				// index must be a loop variable: innermost loop containing the load
+				var h *ssa.BasicBlock
+				var body map[*ssa.BasicBlock]bool
+				for _, hb := range fn.Blocks {
+					if bd := naturalLoopBody(hb); bd != nil && bd[blk] && (body == nil || len(bd) < len(body)) {
+						h, body = hb, bd
+					}
+				}
+				if h == nil {
+					continue
+				}
+				if _, isPhi := ia.Index.(*ssa.Phi); !isPhi {
+					if bo, isB := ia.Index.(*ssa.BinOp); !isB || bo == nil {
+						continue
+					}
+				}
+				found++
+				keep := map[*ssa.BasicBlock]bool{}
+				for _, b2 := range fn.Blocks {
+					if !body[b2] {
+						continue
+					}
+					for _, in2 := range b2.Instrs {
+						c, ok := in2.(*ssa.Call)
+						if !ok {
+							continue
+						}
+						if bi, ok := c.Common().Value.(*ssa.Builtin); !ok || bi.Name() != "append" {
+							continue
+						}
+						if el, ok := sliceLitElems(c.Common().Args[1]); ok {
+							for _, e := range el {
+								if e == ssa.Value(elem) {
+									keep[b2] = true
+								}
+							}
+						}
+					}
+				}
+				seen := map[*ssa.BasicBlock]bool{}
+				skipped := false
+				var walk func(b *ssa.BasicBlock)
+				walk = func(b *ssa.BasicBlock) {
+					if seen[b] || keep[b] || !body[b] {
+						return
+					}
+					seen[b] = true
+					for _, sx := range b.Succs {
+						if sx == h {
+							skipped = true
+							return
+						}
+						walk(sx)
+					}
+				}
+				if !keep[blk] {
+					walk(blk)
+				}
+				r.add("R18.7", "every-line-kept|"+name, p.ipos(elem), fmt.Sprintf("every path through the loop over the merged-in lines appends the line (%d appending blocks)", len(keep)), len(keep) > 0 && !skipped,
+					"some lines of the merged-in part are dropped without a message")
+			}
+		}
+		if found == 0 {
+			r.fail("R18.7", "anchor|loop over merged-in lines|"+name, p.pos(fn.Pos()), "no loop over the merged-in lines found", "")
+		}
+	}
 }
